@@ -461,4 +461,52 @@ def r11_socket(ctx):
     ctx.borrow(c18.r18_1, 'R11.7')
 
 
-RULES = [('R11-socket', r11_socket), ('R11-server', r11_server), ('R11-close', r11_close), ('R11-send', r11_send), ('R11-receive', r11_receive), ('R11-multi', r11_multi)]
+def r11_broken_pipe(ctx):
+    """Socket ports whose peer has gone (every write fails with EPIPE, and _send reacts by closing the port): close() - with and
+    without autoreset, directly or through a failing send - still returns, releases socket and files exactly once and leaves the
+    port closed; a second close does nothing."""
+    from . import c18
+    ai = pm.make_interp(ctx)
+    c18.install_select(ai)
+    sp = ctx.p.cls(c18.S, 'SocketPort')
+    o, close = ctx.p.lookup_method(sp, 'close')
+    ctx.fn(close)
+    w = ctx.where(close)
+    n = 0
+    for autoreset in (False, True):
+        for first in ('close', 'send'):
+            holder = {}
+
+            def thunk():
+                port, conn = c18.build(ai, ctx, [c18.GAP])
+                conn.state['broken_pipe'] = True
+                port.attrs['autoreset'] = autoreset
+                holder.update(port=port, conn=conn)
+                if first == 'send':
+                    try:
+                        pm.call(ai, ctx, port, 'send', [pm.note(ctx, 7)])
+                    except AbsRaise as e:
+                        holder['send_exc'] = e.exc
+                pm.call(ai, ctx, port, 'close')
+                pm.call(ai, ctx, port, 'close')
+                return port
+            outs = ai.explore(thunk)
+            n += 1
+            inst = f'SocketPort(autoreset={autoreset}), peer gone: {"send; " if first == "send" else ""}close; close'
+            cons = f'{sp.qname}::broken-pipe::{"autoreset" if autoreset else "plain"}'
+            if len(outs) != 1 or outs[0].kind != 'return':
+                ctx.fail('R11.2' if autoreset else 'R11.1', inst, w, f'close() on a port whose peer has disconnected: {outs} '
+                         '(a failing reset re-enters close() through _send; the device is never released)', construct=cons)
+                continue
+            closed = sorted(holder['conn'].state['closed'])
+            ok = closed == ['rfile', 'socket', 'wfile'] and holder['port'].attrs.get('closed') is True and \
+                (first != 'send' or holder.get('send_exc') == 'OSError')
+            ctx.require(ok, 'R11.2' if autoreset else 'R11.1', inst, w,
+                        f'released {closed}, closed = {holder["port"].attrs.get("closed")!r}, send raised {holder.get("send_exc")!r}; expected socket and both '
+                        'files closed once each, closed = True (send: OSError)', construct=cons)
+    ctx.floor('R11-broken-pipe', n, 4)
+    for q in ai.inlined:
+        ctx.functions.add(q)
+
+
+RULES = [('R11-broken-pipe', r11_broken_pipe), ('R11-socket', r11_socket), ('R11-server', r11_server), ('R11-close', r11_close), ('R11-send', r11_send), ('R11-receive', r11_receive), ('R11-multi', r11_multi)]
